@@ -54,6 +54,7 @@ FIXED = [
  ("F49", "C17", "1b7b941", "former known finding C17-failed-zeroing-of-new-cluster-keeps-mapping, repaired by F43..F46 plus this commit: a write_at that failed after mapping a freshly allocated data cluster and before zeroing it (zeroing failed: mark stayed at 'zeroing started'; or an earlier step failed and discard later wrote the slice in place) left a mapping to the stale content of the cluster's previous use, live and after flush + reopen", "regress/C17/failed-zeroing-keeps-mark.json"),
  ("F50", "C17", "e641e8b", "commit_wmap() called by one slice loader made every pending cache entry visible, also one whose own load was still in flight; when that load failed the dead entry (no offset) stayed visible and a sibling part of the same multi-cluster copy-on-write write used it - panic on Option::unwrap() in flush_table (two L2 tables loaded by one write, the read of the second fails; found by C17's thorough tier)", "regress/C17/failed-load-of-entry-committed-by-another-loader.json"),
  ("F51", "C15", "6151344", "a version 3 header with header_length 104 (no compression type field) followed by a header extension: from_buf() kept the extension's first byte as compression type, serialize_to_buf() wrote it into the 112 byte header it produces, and from_buf() refused that output (found when the header generators got header_length variants after seeded changes R6-C09 / R6-C15)", "regress/C15/v3-header-104-garbage-compression-type.json"),
+ ("F52", "C17", "f96182a", "a read request of the backing chain fails inside the multi-cluster read that do_back_cow() issues (backing clusters smaller than the top image's): the backing device reports a short count, do_back_cow() ignored the count, wrote the uninitialised bounce buffer to the new cluster, published the mapping and acknowledged the write (found when fault injection was extended to the files of the backing chain)", "regress/C17/backing-read-error-in-cow-writes-garbage.json"),
  ("F11", "C03", "c069255", "writing to a zero-flagged cluster with a preallocation leaked the preallocated host cluster", "regress/C03/zero-prealloc-write-leaks.json"),
 ]
 KNOWN = [
